@@ -18,7 +18,6 @@ pub struct Authorization {
 	#[allow(dead_code)]
 	pub expires: Option<String>,
 	pub challenges: Vec<Challenge>,
-	#[allow(dead_code)]
 	pub wildcard: Option<bool>,
 }
 
